@@ -30,6 +30,22 @@ CFG4 = [
 ]
 
 
+def wide_configs(storages=("mem", "csv"), D=2):
+    """Configurations that start from six stored points (inserted in time order, or out of order and re-indexed):
+    single operations on a database larger than the BFS bound N."""
+    ordered = ("insert_multiple", ("P0", "P1", "P2", "P3", "P8", "P5"), None, False, "db")
+    shuffled = ("insert_multiple", ("P5", "P3", "P1", "P2", "P0", "P4"), None, False, "db")
+    out = []
+    for c in CFG4:
+        if c["storage"] not in storages:
+            continue
+        for name, init in (("wide6-ordered", (ordered,)), ("wide6-shuffled", (shuffled, ("reindex",) if not c["auto_index"] else ("count", ("noop", "time"), None)))):
+            d = dict(c)
+            d.update(name=c["name"] + "/" + name, N=7, D=D, init=init)
+            out.append(d)
+    return out
+
+
 def closure_configs(storages=("mem", "csv"), N=2, D=60):
     """Configurations explored to the fixpoint: all histories of ANY length that stay within N stored points."""
     out = []
@@ -101,7 +117,11 @@ class E1Check:
         return False
 
     def initial_contents(self, cfg):
-        return []
+        """Reference contents of the configuration's initial history (cfg["init"], default empty)."""
+        c = []
+        for op in cfg.get("init", ()):
+            c, _ = W.ref_apply(op, c, self.alpha)
+        return c
 
     def unreadable(self, T, exc):
         return [viol("storage-readable", f"{self.prop}|storage-unreadable|op={T.op[0]}|{T.cfg['name']}",
